@@ -163,10 +163,16 @@ func c10runHist(j c09job) (res c09res) {
 				got = c10call(hostSym[ev.Kind], ev.Kind)
 			}
 			res.Uses = append(res.Uses, c10use{Expr: expr, Got: got, Want: c10want[ev.Kind], Normal: got == c10want[ev.Kind], Zero: got == "0"})
+			// goroutines started by the use (the partner of CC's rendez-vous) end before the next event
+			if left, _, _, _ := c09settle(before, c09ExitBound, nil); len(left) > 0 {
+				res.Err = "goroutines of a use are still alive: " + c09short(left[0].stack)
+				return
+			}
 		case "cancel":
 			what, err := c10cancel(ip, ev, &nchan, before)
 			if err != "" {
 				res.Err = err
+				res.Runaway = strings.Contains(err, "still alive") // the worker is replaced
 				return
 			}
 			ev.What = what
@@ -250,10 +256,9 @@ func c10cancel(ip *interp.Interpreter, ev c10ev, nchan *int, before map[uint64]b
 			// the evaluation won the race in EvalWithContext's select: nothing was cancelled
 			what = "expired-completed"
 		} else {
-			select {
-			case <-r.parkedCh:
+			if c09parkedOrGone(r, before, c09ExitBound) {
 				what = "expired-ran"
-			case <-time.After(300 * time.Millisecond):
+			} else {
 				what = "expired-not"
 			}
 		}
@@ -454,8 +459,8 @@ func runC10(args []string) error {
 		res := results[i]
 		m := metas[i]
 		in := map[string]any{"definitions": "F, T.M, T0, Clo (function literal), MV (method value), CC (channel rendez-vous); host holds Eval(name) and Symbols values", "history": res.HistEvents}
-		if res.HistEvents == nil {
-			in["history"] = m.h
+		if res.Err != "" {
+			in["history_generated"] = m.h
 		}
 		sm.Evaluations++
 		if res.Err != "" {
